@@ -788,3 +788,11 @@ mod tests {
         }
     }
 }
+
+// Verification hooks (add-only): inert unless built by Kani or with `--cfg indicatif_verif`.
+#[cfg(kani)]
+#[path = "/verif/kani/draw_target.rs"]
+mod verif_kani;
+#[cfg(indicatif_verif)]
+#[path = "/verif/hooks/draw_target.rs"]
+pub mod verif_hooks;
